@@ -676,6 +676,29 @@ fn memo_kinds() -> Vec<K> {
          comp(&[("c", c1.clone())], &[]), comp(&[("c", c2.clone())], &[]),
          inst(&[("x", i1.clone()), ("y", i2.clone())]), inst(&[("x", i2.clone()), ("y", i1.clone())])]
 }
+/// Further kinds for the reversed-pair histories: TYPE items whose type is width-subtyped (interface, world, module
+/// type), narrow and wide, bare and nested as type exports/imports of instances and components; plus equality-based
+/// items (func type, value type, plain func/value) for contrast.
+fn memo_kinds_typed() -> Vec<K> {
+    let e1 = items(&[("f", f1())]); let e2 = items(&[("f", f1()), ("g", f1())]);
+    let ti1 = K::TIface(e1.clone()); let ti2 = K::TIface(e2.clone());
+    let tw1 = K::TWorld(items(&[]), e1.clone()); let tw2 = K::TWorld(items(&[]), e2.clone());
+    let tw3 = K::TWorld(e1.clone(), items(&[])); let tw4 = K::TWorld(e2.clone(), items(&[]));
+    let m1 = module(&[], &[("e", FUNC1)]); let m2 = module(&[], &[("e", FUNC1), ("d", FUNC1)]);
+    let m3 = module(&[], &[("e", MEM0)]); let m4 = module(&[], &[("e", "memory 0 0 2 - -")]);
+    let tm1 = K::TMod(m1.clone()); let tm2 = K::TMod(m2.clone());
+    vec![ti1.clone(), ti2.clone(), tw1.clone(), tw2.clone(), tw3.clone(), tw4.clone(), tm1.clone(), tm2.clone(),
+         K::TMod(m3.clone()), K::TMod(m4.clone()),
+         inst(&[("t", ti1.clone())]), inst(&[("t", ti2.clone())]),
+         inst(&[("t", tw1.clone())]), inst(&[("t", tw2.clone())]),
+         inst(&[("t", tm1.clone())]), inst(&[("t", tm2.clone())]),
+         comp(&[], &[("t", ti1.clone())]), comp(&[], &[("t", ti2.clone())]),
+         comp(&[("t", ti1.clone())], &[]), comp(&[("t", ti2.clone())], &[]),
+         inst(&[("n", inst(&[("t", ti1.clone())]))]), inst(&[("n", inst(&[("t", ti2.clone())]))]),
+         K::TFunc(func(false, &[], None)), K::TFunc(func(false, &[("x", U8)], None)),
+         K::TValue(rec(&[("a", U8)])), K::TValue(alias(rec(&[("a", U8)]))), K::TValue(rec(&[("b", U8)])),
+         K::Value(list(U8)), K::Value(alias(list(U8))), K::Mod(m1), K::Mod(m2)]
+}
 
 fn generate(tier: &str, seed: u64) -> Vec<String> {
     let thorough = tier == "thorough";
@@ -738,6 +761,24 @@ fn generate(tier: &str, seed: u64) -> Vec<String> {
             for p in &probes { let mut s2 = seq.clone(); s2.push(p.clone()); cases.push(format!("memo\t{pa}\t{pa}\t{}", s2.join(" "))); }
         }
     }
+    // 5. reversed-pair histories: for EVERY ordered pair (x, y) of the chosen kinds, check x <: y and then y <: x on one
+    //    checker (same identifiers, so the memo entry of the first is the reversed key of the second); both with the two
+    //    kinds in separate collections and in one; optionally preceded by an unrelated check
+    let mut all_kinds = memo_kinds(); all_kinds.extend(memo_kinds_typed());
+    let mut lt = Lower { hashcons: true, ..Default::default() };
+    let kt: Vec<String> = all_kinds.iter().map(|k| lt.k(k)).collect();
+    let pt = lt.program();
+    let nk = kt.len();
+    for i in 0..nk { for j in 0..nk {
+        if i == j { continue; }
+        cases.push(format!("memo\t{pt}\t{pt}\tAB:{}|{} BA:{}|{}", kt[i], kt[j], kt[j], kt[i]));
+        cases.push(format!("memo\t{pt}\t{pt}\tAA:{}|{} AA:{}|{}", kt[i], kt[j], kt[j], kt[i]));
+        if thorough || (i + j) % 3 == 0 {
+            let o = (i + 2 * j + 1) % nk;
+            cases.push(format!("memo\t{pt}\t{pt}\tAB:{}|{} AB:{}|{} BA:{}|{}", kt[o], kt[o], kt[i], kt[j], kt[j], kt[i]));
+            cases.push(format!("memo\t{pt}\t{pt}\tAB:{}|{} BA:{}|{} AB:{}|{}", kt[i], kt[j], kt[j], kt[i], kt[i], kt[j]));
+        }
+    } }
     let nlong = if thorough { 20_000 } else { 1_500 };
     for _ in 0..nlong {
         let len = 3 + r.below(3);
